@@ -63,18 +63,18 @@ pub open spec fn blake2b_sigma(r: int, k: int) -> int {
 // ------------------------------------------------------------------------------------------------
 // RFC 7693 3.1 mixing function G (w = 64; R1..R4 = 32, 24, 16, 63)
 // ------------------------------------------------------------------------------------------------
-pub open spec fn add64(a: u64, b: u64) -> u64 {
+pub open spec fn b2_add64(a: u64, b: u64) -> u64 {
     ((a as int + b as int) % 0x1_0000_0000_0000_0000) as u64
 }
 
-pub open spec fn g_spec(v: Seq<u64>, a: int, b: int, c: int, d: int, x: u64, y: u64) -> Seq<u64> {
-    let v1 = v.update(a, add64(v[a], add64(v[b], x)));
+pub open spec fn blake2b_g(v: Seq<u64>, a: int, b: int, c: int, d: int, x: u64, y: u64) -> Seq<u64> {
+    let v1 = v.update(a, b2_add64(v[a], b2_add64(v[b], x)));
     let v2 = v1.update(d, spec_rotr64(v1[d] ^ v1[a], 32));
-    let v3 = v2.update(c, add64(v2[c], v2[d]));
+    let v3 = v2.update(c, b2_add64(v2[c], v2[d]));
     let v4 = v3.update(b, spec_rotr64(v3[b] ^ v3[c], 24));
-    let v5 = v4.update(a, add64(v4[a], add64(v4[b], y)));
+    let v5 = v4.update(a, b2_add64(v4[a], b2_add64(v4[b], y)));
     let v6 = v5.update(d, spec_rotr64(v5[d] ^ v5[a], 16));
-    let v7 = v6.update(c, add64(v6[c], v6[d]));
+    let v7 = v6.update(c, b2_add64(v6[c], v6[d]));
     v7.update(b, spec_rotr64(v7[b] ^ v7[c], 63))
 }
 
@@ -82,45 +82,45 @@ pub open spec fn g_spec(v: Seq<u64>, a: int, b: int, c: int, d: int, x: u64, y: 
 // RFC 7693 3.2 compression function F
 // ------------------------------------------------------------------------------------------------
 /// one round: the eight G applications (columns, then diagonals) with the schedule s = SIGMA[r mod 10]
-pub open spec fn round_spec(v: Seq<u64>, m: Seq<u64>, r: int) -> Seq<u64> {
+pub open spec fn blake2b_round(v: Seq<u64>, m: Seq<u64>, r: int) -> Seq<u64> {
     let s = blake2b_sigma_row(r % 10);
-    let v = g_spec(v, 0, 4, 8, 12, m[s[0]], m[s[1]]);
-    let v = g_spec(v, 1, 5, 9, 13, m[s[2]], m[s[3]]);
-    let v = g_spec(v, 2, 6, 10, 14, m[s[4]], m[s[5]]);
-    let v = g_spec(v, 3, 7, 11, 15, m[s[6]], m[s[7]]);
-    let v = g_spec(v, 0, 5, 10, 15, m[s[8]], m[s[9]]);
-    let v = g_spec(v, 1, 6, 11, 12, m[s[10]], m[s[11]]);
-    let v = g_spec(v, 2, 7, 8, 13, m[s[12]], m[s[13]]);
-    g_spec(v, 3, 4, 9, 14, m[s[14]], m[s[15]])
+    let v = blake2b_g(v, 0, 4, 8, 12, m[s[0]], m[s[1]]);
+    let v = blake2b_g(v, 1, 5, 9, 13, m[s[2]], m[s[3]]);
+    let v = blake2b_g(v, 2, 6, 10, 14, m[s[4]], m[s[5]]);
+    let v = blake2b_g(v, 3, 7, 11, 15, m[s[6]], m[s[7]]);
+    let v = blake2b_g(v, 0, 5, 10, 15, m[s[8]], m[s[9]]);
+    let v = blake2b_g(v, 1, 6, 11, 12, m[s[10]], m[s[11]]);
+    let v = blake2b_g(v, 2, 7, 8, 13, m[s[12]], m[s[13]]);
+    blake2b_g(v, 3, 4, 9, 14, m[s[14]], m[s[15]])
 }
 
 /// rounds 0 .. n-1
-pub open spec fn rounds_spec(v: Seq<u64>, m: Seq<u64>, n: nat) -> Seq<u64>
+pub open spec fn blake2b_rounds(v: Seq<u64>, m: Seq<u64>, n: nat) -> Seq<u64>
     decreases n,
 {
     if n == 0 {
         v
     } else {
-        round_spec(rounds_spec(v, m, (n - 1) as nat), m, n - 1)
+        blake2b_round(blake2b_rounds(v, m, (n - 1) as nat), m, n - 1)
     }
 }
 
 /// m[0..15]: the 128-byte block as sixteen little-endian 64-bit words
-pub open spec fn msg_words(block: Seq<u8>) -> Seq<u64> {
+pub open spec fn blake2b_msg_words(block: Seq<u8>) -> Seq<u64> {
     Seq::new(16, |i: int| le_nat(block.subrange(8 * i, 8 * i + 8)) as u64)
 }
 
-pub open spec fn pow2_64() -> nat {
+pub open spec fn blake2b_two64() -> nat {
     0x1_0000_0000_0000_0000
 }
 
 /// the 128-bit offset counter t held as two 64-bit words (t[0] low, t[1] high)
-pub open spec fn counter_val(t0: u64, t1: u64) -> nat {
-    t0 as nat + pow2_64() * (t1 as nat)
+pub open spec fn blake2b_counter(t0: u64, t1: u64) -> nat {
+    t0 as nat + blake2b_two64() * (t1 as nat)
 }
 
 /// local work vector: v[0..7] = h, v[8..15] = IV, v[12] ^= t mod 2^64, v[13] ^= t >> 64, last: v[14] ^= 0xFF..FF
-pub open spec fn init_work(h: Seq<u64>, t: nat, last: bool) -> Seq<u64> {
+pub open spec fn blake2b_init_work(h: Seq<u64>, t: nat, last: bool) -> Seq<u64> {
     Seq::new(
         16,
         |i: int|
@@ -129,9 +129,9 @@ pub open spec fn init_work(h: Seq<u64>, t: nat, last: bool) -> Seq<u64> {
             } else if i < 12 {
                 blake2b_iv(i - 8)
             } else if i == 12 {
-                blake2b_iv(4) ^ ((t % pow2_64()) as u64)
+                blake2b_iv(4) ^ ((t % blake2b_two64()) as u64)
             } else if i == 13 {
-                blake2b_iv(5) ^ (((t / pow2_64()) % pow2_64()) as u64)
+                blake2b_iv(5) ^ (((t / blake2b_two64()) % blake2b_two64()) as u64)
             } else if i == 14 {
                 if last {
                     blake2b_iv(6) ^ 0xFFFF_FFFF_FFFF_FFFFu64
@@ -146,7 +146,7 @@ pub open spec fn init_work(h: Seq<u64>, t: nat, last: bool) -> Seq<u64> {
 
 /// F(h, m, t, f): twelve rounds, then h[i] ^= v[i] ^ v[i+8]
 pub open spec fn compress_rfc(h: Seq<u64>, block: Seq<u8>, t: nat, last: bool) -> Seq<u64> {
-    let v = rounds_spec(init_work(h, t, last), msg_words(block), 12);
+    let v = blake2b_rounds(blake2b_init_work(h, t, last), blake2b_msg_words(block), 12);
     Seq::new(8, |i: int| h[i] ^ v[i] ^ v[i + 8])
 }
 
@@ -155,13 +155,13 @@ pub open spec fn compress_rfc(h: Seq<u64>, block: Seq<u8>, t: nat, last: bool) -
 // ------------------------------------------------------------------------------------------------
 /// 64 bytes: digest_length, key_length, fanout = 1, depth = 1, leaf_length = 0 (4), node_offset = 0 (8),
 /// node_depth = 0, inner_length = 0, reserved (14), salt (16), personal (16)
-pub open spec fn param_block(outlen: nat, keylen: nat, salt: Seq<u8>, personal: Seq<u8>) -> Seq<u8> {
+pub open spec fn blake2b_param_block(outlen: nat, keylen: nat, salt: Seq<u8>, personal: Seq<u8>) -> Seq<u8> {
     seq![outlen as u8, keylen as u8, 1u8, 1u8] + zeros(4) + zeros(8) + seq![0u8, 0u8] + zeros(14) + salt + personal
 }
 
 /// h[0..7] = IV[0..7] ^ p[0..7], p = parameter block as eight little-endian words
 pub open spec fn blake2b_h0(outlen: nat, keylen: nat, salt: Seq<u8>, personal: Seq<u8>) -> Seq<u64> {
-    let p = param_block(outlen, keylen, salt, personal);
+    let p = blake2b_param_block(outlen, keylen, salt, personal);
     Seq::new(8, |i: int| blake2b_iv(i) ^ (le_nat(p.subrange(8 * i, 8 * i + 8)) as u64))
 }
 
@@ -169,7 +169,7 @@ pub open spec fn blake2b_h0(outlen: nat, keylen: nat, salt: Seq<u8>, personal: S
 // RFC 7693 3.3 padding data and computing a hash
 // ------------------------------------------------------------------------------------------------
 /// if kk > 0 the key, zero padded to one block, is the first data block
-pub open spec fn key_block(key: Seq<u8>) -> Seq<u8> {
+pub open spec fn blake2b_key_block(key: Seq<u8>) -> Seq<u8> {
     if key.len() == 0 {
         Seq::empty()
     } else {
@@ -178,7 +178,7 @@ pub open spec fn key_block(key: Seq<u8>) -> Seq<u8> {
 }
 
 /// dd - 1: number of data blocks before the final block (dd = ceil(len / 128), dd = 1 for empty data)
-pub open spec fn blocks_before_last(len: nat) -> nat {
+pub open spec fn blake2b_blocks_before_last(len: nat) -> nat {
     if len == 0 {
         0
     } else {
@@ -187,40 +187,40 @@ pub open spec fn blocks_before_last(len: nat) -> nat {
 }
 
 /// h after the first n (non-final) blocks of `data`: h = F(h, d[i], (i + 1) * 128, FALSE)
-pub open spec fn absorb_blocks(h: Seq<u64>, data: Seq<u8>, n: nat) -> Seq<u64>
+pub open spec fn blake2b_absorb_blocks(h: Seq<u64>, data: Seq<u8>, n: nat) -> Seq<u64>
     decreases n,
 {
     if n == 0 {
         h
     } else {
-        compress_rfc(absorb_blocks(h, data, (n - 1) as nat), data.subrange(128 * (n - 1), 128 * n as int), 128 * n, false)
+        compress_rfc(blake2b_absorb_blocks(h, data, (n - 1) as nat), data.subrange(128 * (n - 1), 128 * n as int), 128 * n, false)
     }
 }
 
 /// little-endian serialisation of the state words
-pub open spec fn words_to_bytes(h: Seq<u64>) -> Seq<u8>
+pub open spec fn blake2b_words_to_bytes(h: Seq<u64>) -> Seq<u8>
     decreases h.len(),
 {
     if h.len() == 0 {
         Seq::empty()
     } else {
-        nat_to_le(h[0] as nat, 8) + words_to_bytes(h.subrange(1, h.len() as int))
+        nat_to_le(h[0] as nat, 8) + blake2b_words_to_bytes(h.subrange(1, h.len() as int))
     }
 }
 
 /// the final state h: all blocks but the last with f = FALSE, then the last block (zero padded; empty only if there
 /// is no data at all) with t = total number of data bytes (key block included) and f = TRUE
 pub open spec fn blake2b_final_h(outlen: nat, key: Seq<u8>, salt: Seq<u8>, personal: Seq<u8>, msg: Seq<u8>) -> Seq<u64> {
-    let data = key_block(key) + msg;
-    let n = blocks_before_last(data.len());
-    let h = absorb_blocks(blake2b_h0(outlen, key.len(), salt, personal), data, n);
+    let data = blake2b_key_block(key) + msg;
+    let n = blake2b_blocks_before_last(data.len());
+    let h = blake2b_absorb_blocks(blake2b_h0(outlen, key.len(), salt, personal), data, n);
     let tail = data.subrange(128 * n as int, data.len() as int);
     compress_rfc(h, tail + zeros((128 - tail.len()) as nat), data.len(), true)
 }
 
 /// the final state serialised little-endian (64 bytes)
 pub open spec fn blake2b_rfc_full(outlen: nat, key: Seq<u8>, salt: Seq<u8>, personal: Seq<u8>, msg: Seq<u8>) -> Seq<u8> {
-    words_to_bytes(blake2b_final_h(outlen, key, salt, personal, msg))
+    blake2b_words_to_bytes(blake2b_final_h(outlen, key, salt, personal, msg))
 }
 
 /// BLAKE2b(outlen, key, salt, personal, msg): first `outlen` bytes of the serialised final state.
@@ -244,7 +244,7 @@ pub open spec fn opt16(x: Option<&[u8; 16]>) -> Seq<u8> {
 /// R2 shim for `s.len()` on a byte slice. ASSUMPTION (std guarantee, see `slice::from_raw_parts`): a slice never
 /// spans more than isize::MAX bytes. Needed once: `input.len() + self.buf.len()` in `State::update`.
 #[verifier::external_body]
-pub fn shim_slice_len(s: &[u8]) -> (r: usize)
+pub fn shim_b2_slice_len(s: &[u8]) -> (r: usize)
     ensures
         r == s@.len(),
         r <= isize::MAX as usize,
@@ -254,7 +254,7 @@ pub fn shim_slice_len(s: &[u8]) -> (r: usize)
 
 /// R2 shim for `v.zeroize()` on a Vec<u8> (zeroize crate: every byte set to 0, then the Vec is cleared)
 #[verifier::external_body]
-pub fn shim_zeroize_vec(v: &mut Vec<u8>)
+pub fn shim_b2_zeroize_vec(v: &mut Vec<u8>)
     ensures
         final(v)@.len() == 0,
 {
@@ -264,7 +264,7 @@ pub fn shim_zeroize_vec(v: &mut Vec<u8>)
 
 /// R2 shim for `a.zeroize()` on [u64; 8] (zeroize crate)
 #[verifier::external_body]
-pub fn shim_zeroize_u64x8(a: &mut [u64; 8])
+pub fn shim_b2_zeroize_u64x8(a: &mut [u64; 8])
     ensures
         forall|i: int| 0 <= i < 8 ==> final(a)@[i] == 0u64,
 {
@@ -274,7 +274,7 @@ pub fn shim_zeroize_u64x8(a: &mut [u64; 8])
 
 /// R2 shim for `a.zeroize()` on [u8; 128] (zeroize crate)
 #[verifier::external_body]
-pub fn shim_zeroize_u8x128(a: &mut [u8; 128])
+pub fn shim_b2_zeroize_u8x128(a: &mut [u8; 128])
     ensures
         final(a)@ == zeros(128),
 {
@@ -301,6 +301,88 @@ pub proof fn kat_rfc7693_appendix_a()
         0x7Du8, 0x87u8, 0xC5u8, 0x39u8, 0x2Au8, 0xABu8, 0x79u8, 0x2Du8, 0xC2u8, 0x52u8, 0xD5u8, 0xDEu8, 0x45u8, 0x33u8, 0xCCu8, 0x95u8,
         0x18u8, 0xD3u8, 0x8Au8, 0xA8u8, 0xDBu8, 0xF1u8, 0x92u8, 0x5Au8, 0xB9u8, 0x23u8, 0x86u8, 0xEDu8, 0xD4u8, 0x00u8, 0x99u8, 0x23u8,
     ]) by (compute);
+}
+
+/// BLAKE2b-512("") (reference implementation, unkeyed KAT 0): the empty message is one all-zero final block, t = 0
+pub proof fn kat_blake2b_empty()
+    ensures
+        blake2b_rfc(64, Seq::empty(), zeros(16), zeros(16), Seq::empty()) == seq![
+            0x78u8, 0x6Au8, 0x02u8, 0xF7u8, 0x42u8, 0x01u8, 0x59u8, 0x03u8, 0xC6u8, 0xC6u8, 0xFDu8, 0x85u8, 0x25u8, 0x52u8, 0xD2u8, 0x72u8,
+            0x91u8, 0x2Fu8, 0x47u8, 0x40u8, 0xE1u8, 0x58u8, 0x47u8, 0x61u8, 0x8Au8, 0x86u8, 0xE2u8, 0x17u8, 0xF7u8, 0x1Fu8, 0x54u8, 0x19u8,
+            0xD2u8, 0x5Eu8, 0x10u8, 0x31u8, 0xAFu8, 0xEEu8, 0x58u8, 0x53u8, 0x13u8, 0x89u8, 0x64u8, 0x44u8, 0x93u8, 0x4Eu8, 0xB0u8, 0x4Bu8,
+            0x90u8, 0x3Au8, 0x68u8, 0x5Bu8, 0x14u8, 0x48u8, 0xB7u8, 0x55u8, 0xD5u8, 0x6Fu8, 0x70u8, 0x1Au8, 0xFEu8, 0x9Bu8, 0xE2u8, 0xCEu8,
+        ],
+{
+    assert(blake2b_rfc(64, Seq::empty(), zeros(16), zeros(16), Seq::empty()) == seq![
+            0x78u8, 0x6Au8, 0x02u8, 0xF7u8, 0x42u8, 0x01u8, 0x59u8, 0x03u8, 0xC6u8, 0xC6u8, 0xFDu8, 0x85u8, 0x25u8, 0x52u8, 0xD2u8, 0x72u8,
+            0x91u8, 0x2Fu8, 0x47u8, 0x40u8, 0xE1u8, 0x58u8, 0x47u8, 0x61u8, 0x8Au8, 0x86u8, 0xE2u8, 0x17u8, 0xF7u8, 0x1Fu8, 0x54u8, 0x19u8,
+            0xD2u8, 0x5Eu8, 0x10u8, 0x31u8, 0xAFu8, 0xEEu8, 0x58u8, 0x53u8, 0x13u8, 0x89u8, 0x64u8, 0x44u8, 0x93u8, 0x4Eu8, 0xB0u8, 0x4Bu8,
+            0x90u8, 0x3Au8, 0x68u8, 0x5Bu8, 0x14u8, 0x48u8, 0xB7u8, 0x55u8, 0xD5u8, 0x6Fu8, 0x70u8, 0x1Au8, 0xFEu8, 0x9Bu8, 0xE2u8, 0xCEu8,
+        ]) by (compute);
+}
+
+/// BLAKE2b-512 keyed KAT 0 of the reference implementation (key = 00 01 .. 3f, empty message): the key block is the only (final) block
+pub proof fn kat_blake2b_keyed()
+    ensures
+        blake2b_rfc(64, Seq::new(64, |i: int| i as u8), zeros(16), zeros(16), Seq::empty()) == seq![
+            0x10u8, 0xEBu8, 0xB6u8, 0x77u8, 0x00u8, 0xB1u8, 0x86u8, 0x8Eu8, 0xFBu8, 0x44u8, 0x17u8, 0x98u8, 0x7Au8, 0xCFu8, 0x46u8, 0x90u8,
+            0xAEu8, 0x9Du8, 0x97u8, 0x2Fu8, 0xB7u8, 0xA5u8, 0x90u8, 0xC2u8, 0xF0u8, 0x28u8, 0x71u8, 0x79u8, 0x9Au8, 0xAAu8, 0x47u8, 0x86u8,
+            0xB5u8, 0xE9u8, 0x96u8, 0xE8u8, 0xF0u8, 0xF4u8, 0xEBu8, 0x98u8, 0x1Fu8, 0xC2u8, 0x14u8, 0xB0u8, 0x05u8, 0xF4u8, 0x2Du8, 0x2Fu8,
+            0xF4u8, 0x23u8, 0x34u8, 0x99u8, 0x39u8, 0x16u8, 0x53u8, 0xDFu8, 0x7Au8, 0xEFu8, 0xCBu8, 0xC1u8, 0x3Fu8, 0xC5u8, 0x15u8, 0x68u8,
+        ],
+{
+    assert(blake2b_rfc(64, Seq::new(64, |i: int| i as u8), zeros(16), zeros(16), Seq::empty()) == seq![
+            0x10u8, 0xEBu8, 0xB6u8, 0x77u8, 0x00u8, 0xB1u8, 0x86u8, 0x8Eu8, 0xFBu8, 0x44u8, 0x17u8, 0x98u8, 0x7Au8, 0xCFu8, 0x46u8, 0x90u8,
+            0xAEu8, 0x9Du8, 0x97u8, 0x2Fu8, 0xB7u8, 0xA5u8, 0x90u8, 0xC2u8, 0xF0u8, 0x28u8, 0x71u8, 0x79u8, 0x9Au8, 0xAAu8, 0x47u8, 0x86u8,
+            0xB5u8, 0xE9u8, 0x96u8, 0xE8u8, 0xF0u8, 0xF4u8, 0xEBu8, 0x98u8, 0x1Fu8, 0xC2u8, 0x14u8, 0xB0u8, 0x05u8, 0xF4u8, 0x2Du8, 0x2Fu8,
+            0xF4u8, 0x23u8, 0x34u8, 0x99u8, 0x39u8, 0x16u8, 0x53u8, 0xDFu8, 0x7Au8, 0xEFu8, 0xCBu8, 0xC1u8, 0x3Fu8, 0xC5u8, 0x15u8, 0x68u8,
+        ]) by (compute);
+}
+
+/// a message of exactly 128 bytes (m[i] = 7 i + 3 mod 256) is ONE block, compressed as the final block with t = 128 (expected value: Python hashlib.blake2b)
+pub proof fn kat_blake2b_one_full_block()
+    ensures
+        blake2b_rfc(64, Seq::empty(), zeros(16), zeros(16), Seq::new(128, |i: int| ((7 * i + 3) % 256) as u8)) == seq![
+            0x2Du8, 0x9Eu8, 0x32u8, 0x9Fu8, 0x42u8, 0xAFu8, 0xA3u8, 0x60u8, 0x1Du8, 0x64u8, 0x66u8, 0x92u8, 0xB8u8, 0x1Cu8, 0x13u8, 0xE8u8,
+            0x7Fu8, 0xCAu8, 0xFFu8, 0x5Bu8, 0xF1u8, 0x59u8, 0x72u8, 0xE9u8, 0x81u8, 0x3Du8, 0x73u8, 0x73u8, 0xCBu8, 0x6Du8, 0x18u8, 0x1Fu8,
+            0x95u8, 0x99u8, 0xF4u8, 0xD5u8, 0x13u8, 0xD4u8, 0xAFu8, 0x4Fu8, 0xD6u8, 0xEBu8, 0xD3u8, 0x74u8, 0x97u8, 0xACu8, 0xEBu8, 0x29u8,
+            0xABu8, 0xA5u8, 0xEEu8, 0x23u8, 0xEDu8, 0x76u8, 0x4Du8, 0x85u8, 0x10u8, 0xB5u8, 0x52u8, 0xBDu8, 0x08u8, 0x88u8, 0x14u8, 0xFBu8,
+        ],
+{
+    assert(blake2b_rfc(64, Seq::empty(), zeros(16), zeros(16), Seq::new(128, |i: int| ((7 * i + 3) % 256) as u8)) == seq![
+            0x2Du8, 0x9Eu8, 0x32u8, 0x9Fu8, 0x42u8, 0xAFu8, 0xA3u8, 0x60u8, 0x1Du8, 0x64u8, 0x66u8, 0x92u8, 0xB8u8, 0x1Cu8, 0x13u8, 0xE8u8,
+            0x7Fu8, 0xCAu8, 0xFFu8, 0x5Bu8, 0xF1u8, 0x59u8, 0x72u8, 0xE9u8, 0x81u8, 0x3Du8, 0x73u8, 0x73u8, 0xCBu8, 0x6Du8, 0x18u8, 0x1Fu8,
+            0x95u8, 0x99u8, 0xF4u8, 0xD5u8, 0x13u8, 0xD4u8, 0xAFu8, 0x4Fu8, 0xD6u8, 0xEBu8, 0xD3u8, 0x74u8, 0x97u8, 0xACu8, 0xEBu8, 0x29u8,
+            0xABu8, 0xA5u8, 0xEEu8, 0x23u8, 0xEDu8, 0x76u8, 0x4Du8, 0x85u8, 0x10u8, 0xB5u8, 0x52u8, 0xBDu8, 0x08u8, 0x88u8, 0x14u8, 0xFBu8,
+        ]) by (compute);
+}
+
+/// 129 bytes, digest length 32: one non-final block (t = 128) and a final block of 1 byte (t = 129) (expected value: Python hashlib.blake2b)
+pub proof fn kat_blake2b_129_bytes()
+    ensures
+        blake2b_rfc(32, Seq::empty(), zeros(16), zeros(16), Seq::new(129, |i: int| ((7 * i + 3) % 256) as u8)) == seq![
+            0xA3u8, 0x4Au8, 0x4Eu8, 0x1Eu8, 0x03u8, 0xC5u8, 0x41u8, 0xDFu8, 0xBFu8, 0x30u8, 0x99u8, 0xC4u8, 0xB6u8, 0xC1u8, 0x43u8, 0xC0u8,
+            0x22u8, 0xCEu8, 0xD6u8, 0x5Cu8, 0x28u8, 0xBDu8, 0x7Eu8, 0x8Au8, 0x10u8, 0xE0u8, 0xA0u8, 0x98u8, 0x46u8, 0x1Au8, 0xECu8, 0xF0u8,
+        ],
+{
+    assert(blake2b_rfc(32, Seq::empty(), zeros(16), zeros(16), Seq::new(129, |i: int| ((7 * i + 3) % 256) as u8)) == seq![
+            0xA3u8, 0x4Au8, 0x4Eu8, 0x1Eu8, 0x03u8, 0xC5u8, 0x41u8, 0xDFu8, 0xBFu8, 0x30u8, 0x99u8, 0xC4u8, 0xB6u8, 0xC1u8, 0x43u8, 0xC0u8,
+            0x22u8, 0xCEu8, 0xD6u8, 0x5Cu8, 0x28u8, 0xBDu8, 0x7Eu8, 0x8Au8, 0x10u8, 0xE0u8, 0xA0u8, 0x98u8, 0x46u8, 0x1Au8, 0xECu8, 0xF0u8,
+        ]) by (compute);
+}
+
+/// digest length 32, 16-byte key 10..1f, salt a0..af, personal c0..cf, message 01: key block (t = 128) then final block (t = 129); exercises every field of the libsodium parameter block (expected value: Python hashlib.blake2b(key=, salt=, person=))
+pub proof fn kat_blake2b_key_salt_personal()
+    ensures
+        blake2b_rfc(32, Seq::new(16, |i: int| (0x10 + i) as u8), Seq::new(16, |i: int| (0xa0 + i) as u8), Seq::new(16, |i: int| (0xc0 + i) as u8), seq![1u8]) == seq![
+            0x52u8, 0x40u8, 0x6Eu8, 0x87u8, 0x44u8, 0x88u8, 0x12u8, 0x61u8, 0x1Du8, 0x8Cu8, 0xB4u8, 0x22u8, 0xBFu8, 0x50u8, 0xB2u8, 0xDAu8,
+            0x05u8, 0x07u8, 0x60u8, 0x62u8, 0x3Eu8, 0x82u8, 0x67u8, 0xAAu8, 0xA1u8, 0x94u8, 0xE3u8, 0x88u8, 0x0Du8, 0x9Au8, 0xB6u8, 0xDCu8,
+        ],
+{
+    assert(blake2b_rfc(32, Seq::new(16, |i: int| (0x10 + i) as u8), Seq::new(16, |i: int| (0xa0 + i) as u8), Seq::new(16, |i: int| (0xc0 + i) as u8), seq![1u8]) == seq![
+            0x52u8, 0x40u8, 0x6Eu8, 0x87u8, 0x44u8, 0x88u8, 0x12u8, 0x61u8, 0x1Du8, 0x8Cu8, 0xB4u8, 0x22u8, 0xBFu8, 0x50u8, 0xB2u8, 0xDAu8,
+            0x05u8, 0x07u8, 0x60u8, 0x62u8, 0x3Eu8, 0x82u8, 0x67u8, 0xAAu8, 0xA1u8, 0x94u8, 0xE3u8, 0x88u8, 0x0Du8, 0x9Au8, 0xB6u8, 0xDCu8,
+        ]) by (compute);
 }
 
 } // verus!
